@@ -551,6 +551,9 @@ def real_div(x, y):
     if z3.is_rational_value(y) or z3.is_int_value(y):
         return x / y
     r = cancel(x, y)
+    if r is None:
+        # sum-of-monomials normal form often exposes the common factor ((a+n)*r - a*r  ->  n*r)
+        r = cancel(z3.simplify(x, som=True), z3.simplify(y))
     if r is not None:
         return z3.simplify(r)
     c = _CTX
